@@ -106,3 +106,19 @@ MUTANTS += [
     M("c06-slave-widens-class", "C06", "SlaveService widens via class-level protocol default", (SV, "        self._conn._config.update(dict(", "        from rpyc.core import protocol as _p\n        _p.DEFAULT_CONFIG['allow_public_attrs'] = True\n        self._conn._config.update(dict(")),
     M("c06-bytes-name-skip", "C06", "bytes names skip the policy check", (P, '        if type(name) is bytes:\n            name = str(name, "utf8")', '        if type(name) is bytes:\n            return default(obj, str(name, "utf8"), *args)')),
 ]
+
+MUTANTS += [
+    # ---- C02
+    M("c02-revert-buffiter", "C02", "buffiter float factor breaks again (revert)", (H, "        count = int(min(count * factor, max_chunk))  # islice() needs an integer, factor may be fractional", "        count = min(count * factor, max_chunk)")),
+    M("c02-buffiter-offbyone", "C02", "buffiter drops the last element of a chunk when the chunk has grown past 8", (H, "        for elem in items:\n            yield elem", "        for elem in (items if len(items) <= 8 else items[:-1]):\n            yield elem")),
+    M("c02-cmp-swapped", "C02", "_handle_cmp swaps operands", (P, 'return self._access_attr(type(obj), op, (), "_rpyc_getattr", "allow_getattr", getattr)(obj, other)', 'return self._access_attr(type(obj), op, (), "_rpyc_getattr", "allow_getattr", getattr)(other, obj) if op in ("__lt__", "__le__") else self._access_attr(type(obj), op, (), "_rpyc_getattr", "allow_getattr", getattr)(obj, other)')),
+    M("c02-delattr-as-setattr", "C02", "__delattr__ routed to SETATTR with None", (N, "            syncreq(self, consts.HANDLE_DELATTR, name)", "            syncreq(self, consts.HANDLE_SETATTR, name, None)")),
+    M("c02-stopiter-value", "C02", "StopIteration fast path swallowed at the third call of next", (V, "    if val == consts.EXC_STOP_ITERATION:\n        return StopIteration  # optimization", "    if val == consts.EXC_STOP_ITERATION:\n        return StopIteration(None)")),
+    M("c02-no-getitem", "C02", "__getitem__ dropped from synthesized methods", (N, "        if name not in LOCAL_ATTRS:  # i.e. `name != __class__`", "        if name not in LOCAL_ATTRS and name != '__getitem__':  # i.e. `name != __class__`")),
+    M("c02-str-is-repr", "C02", "str() answered with repr()", (P, "    def _handle_str(self, obj):  # request handler\n        return str(obj)", "    def _handle_str(self, obj):  # request handler\n        return repr(obj)")),
+    M("c02-hash-const", "C02", "hash of proxies truncated", (P, "        return hash(obj)", "        return hash(obj) & 0xffff")),
+    M("c02-ctxexit-noexit", "C02", "context manager exit not forwarded for files", (N, "        return syncreq(self, consts.HANDLE_CTXEXIT, exc)  # can't pass type nor traceback", "        return None if exc is None and self.____id_pack__[0].startswith('_io') else syncreq(self, consts.HANDLE_CTXEXIT, exc)")),
+    M("c02-dir-sorted-subset", "C02", "dir() loses private names", (P, "        return tuple(dir(obj))", "        return tuple(n for n in dir(obj) if not n.startswith('__r'))")),
+    M("c02-kwargs-call", "C02", "__call__ drops kwargs", (N, "            kwargs = tuple(kwargs.items())\n            return syncreq(_self, consts.HANDLE_CALL, args, kwargs)", "            kwargs = ()\n            return syncreq(_self, consts.HANDLE_CALL, args, kwargs)")),
+    M("c02-metaclass-methods", "C02", "metaclass methods not discovered", (L, "        mros = list(reversed(type(obj).__mro__)) + list(reversed(obj.__mro__))", "        mros = list(reversed(obj.__mro__))")),
+]
